@@ -278,6 +278,23 @@ fn scn_streamcomp(o: &Opts, tr: &mut Tr, prop: &str) {
         let sch = Sched { chunk_pat: "fixed500".into(), outs: vec![*ol], flush_pct: 0, flush_set: vec![], callback: false, max_points: 0 };
         stream_comp_case(tr, &format!("sclazy-{}-{}-l{}-o{}", kind, size, lvl, ol), prop, &data, &cfg, &sch, &mut r, kind);
     }
+    // cheap exploration: many more schedules of the same families are executed, but only a case
+    // the crate's own round trip finds wrong (or that panicked / broke a count) is written out,
+    // where TLC judges it like any other
+    let nbulk = if o.thorough { 5000 } else { 600 };
+    for bi in 0..nbulk {
+        let kind = ["litmatch", "litmatch", "mixed", "text", "sparse3", "alpha4"][bi % 6];
+        let size = [60_000usize, 130_000, 200_000, 90_000][bi % 4] + r.gen_range(0..5000);
+        let data = gen::data(kind, size, &mut r);
+        let lvl = [4u8, 5, 6, 7, 8, 9, 10, 1, 2, 3][bi % 10];
+        let cfg = Cfg { zlib: bi % 2 == 1, level: lvl, strat: [0usize, 0, 0, 1, 4][bi % 5], wbits: 15, api: "params" };
+        let sch = Sched { chunk_pat: ["fixed500", "rand", "fixed4096", "fixed77"][bi % 4].into(),
+                          outs: [vec![128], vec![64, 500], vec![1000, 85195], vec![7, 4096, 100000]][(bi / 2) % 4].clone(),
+                          flush_pct: [0, 0, 3, 10][bi % 4], flush_set: vec![2, 3, 7, 1], callback: false, max_points: 0 };
+        tr.hold();
+        let sus = stream_comp_case(tr, &format!("scbulk-{}-{}-{}-l{}", bi, kind, size, lvl), prop, &data, &cfg, &sch, &mut r, kind);
+        tr.release(sus);
+    }
     // stored route: a call whose last byte triggers the internal 31 KiB block cut, with a flush
     // requested in the same call and an output buffer smaller than the block
     let mut ti = 0;
